@@ -73,6 +73,7 @@ def _respell(fmt: Callable[[int], str]) -> Rewrite:
 
 
 hex_ints = _respell(hex)
+hex_upper_ints = _respell(lambda v: "0x" + format(v, "X"))
 octal_ints = _respell(lambda v: "0" + oct(v)[2:] if v else "00")
 
 
@@ -236,6 +237,7 @@ TEXT_REWRITES: Dict[str, Rewrite] = {
     "rename-labels": rename_labels,
     "layout": layout,
     "hex-ints": hex_ints,
+    "hex-upper-ints": hex_upper_ints,
     "octal-ints": octal_ints,
     "named-to-number": named_to_number,
     "number-to-named": number_to_named,
